@@ -661,6 +661,7 @@ func TestVerifC16Probes(t *testing.T) {
 			env.stop(5 * time.Second)
 		}
 	}
+	vh16QueuedWriter(out)
 }
 
 // TestVerifC16Race: the workload alone (no isolation re-runs, short logs), meant to run under -race.
